@@ -1,1 +1,288 @@
-/-! C01 — property theorems (placeholder until the model exists). -/
+import EupsModel.Lemmas.SetupFrame
+import EupsModel.Lemmas.SetupPresent
+import EupsModel.Lemmas.SetupClear
+/-! C01 — setup yields a consistent environment with no residue of superseded versions.
+Model: `EupsModel/Model/Setup.lean`; lemmas: `EupsModel/Lemmas/Setup*.lean`.
+
+`EnvOK`: (a) `DirOK` — every record names a declared version and `<P>_DIR` is its directory; (b) `Present` — every own path
+contribution (`envPrepend`/`envAppend` of `${PRODUCT_DIR}…`) of the table of every recorded version is in its variable;
+(c) `NoResidue Empty` — every own element / envSet value / directory variable belongs to the recorded version of its
+product; `WellOwned` — the environment is one eups produced under the request's setup type (every own element comes
+from a line of its product's table).  Own `envSet` values are covered by (c) but not by (b): two lines of one table, or
+two products, may set the same variable, and the last one wins (oracle (ii) checks them under the generator's
+one-variable-per-product discipline). -/
+namespace EupsModel.C01
+open EupsModel EupsModel.Setup
+
+/-! ## clause (a): `<P>_DIR` is the declared directory of the recorded version — every database, both directions -/
+
+theorem C01_dir_preserved (db : Db) (fuel : Nat) (fwd : Bool) (r : Request) (e : Setup.Env) (s' : St)
+    (hok : DirOK db e)
+    (h : (if fwd then runSetup db fuel r e else runUnsetup db fuel r e) = .ok s') : DirOK db s'.env := by
+  have key := setup_subjInv (r.cfg db) (fun _ _ => True) (DirOK db) (fun _ _ _ _ _ _ _ _ _ _ _ _ _ _ => trivial)
+    (dirOK_subjInv (r.cfg db)) fuel
+  cases fwd with
+  | true => exact key true 0 false r.vro r.name r.version none (St.init e) s' trivial (by intro n d x h; simp [St.init, aget] at h) hok h
+  | false => exact key false 0 false r.vro r.name none none (St.init e) s' trivial (by intro n d x h; simp [St.init, aget] at h) hok h
+
+/-! ## clause (c): no residue -/
+
+/-- unsetup direction: full (every database — name cycles included —, every fuel, every flag combination) -/
+theorem C01_unsetup_no_residue (db : Db) (fuel : Nat) (r : Request) (e : Setup.Env) (s' : St)
+    (hown : WellOwned (r.cfg db) e) (hres : NoResidue Empty e) (h : runUnsetup db fuel r e = .ok s') :
+    NoResidue Empty s'.env ∧ WellOwned (r.cfg db) s'.env ∧ s'.env.rec? r.name = none := by
+  obtain ⟨h1, h2⟩ := setup_false_spec (r.cfg db) fuel Empty 0 false r.vro r.name none none (St.init e) s' hown hres h
+  exact ⟨h1, hown.of_sub h2, setup_false_unsets (r.cfg db) fuel 0 false r.vro r.name none none (St.init e) s' hown h⟩
+
+/-- forward direction under `NameDag` (D17 is the excluded class): from every residue-free environment eups produced
+— populated ones, other versions of the same products set up, included — a successful request, whatever its flags
+(keep, max-depth, tags, inexact) and whatever the fuel, ends residue-free.  Diamonds, version conflicts between siblings and
+failing optional dependencies are inside the claim. -/
+theorem C01_no_residue_partial (db : Db) (rank : Name → Nat) (hdag : NameDag db rank) (fuel : Nat) (r : Request)
+    (e : Setup.Env) (s' : St) (hown : WellOwned (r.cfg db) e) (hres : NoResidue Empty e)
+    (h : runSetup db fuel r e = .ok s') : NoResidue Empty s'.env ∧ WellOwned (r.cfg db) s'.env :=
+  (setup_recOK (r.cfg db) rank hdag fuel).spec true 0 false r.vro r.name r.version none (St.init e) s'
+    (by intro n d x h; simp [St.init, aget] at h) hown hres h
+
+/-! ## clause (b): the own path contributions of every set-up product are present -/
+
+/-- every set-up product has each own `envPrepend`/`envAppend` contribution of its table in place -/
+def ContribsPresent (cfg : Cfg) (e : Setup.Env) : Prop := Present cfg (fun _ => False) e
+
+theorem C01_contributions_present_partial (db : Db) (rank : Name → Nat) (hdag : NameDag db rank) (fuel : Nat)
+    (fwd : Bool) (r : Request) (e : Setup.Env) (s' : St) (hown : WellOwned (r.cfg db) e) (hres : NoResidue Empty e)
+    (hpres : ContribsPresent (r.cfg db) e)
+    (h : (if fwd then runSetup db fuel r e else runUnsetup db fuel r e) = .ok s') :
+    ContribsPresent (r.cfg db) s'.env := by
+  have key := setup_presSpec (r.cfg db) rank hdag fuel (fun _ => False)
+  have ha : AlreadyOK (r.cfg db).db (St.init e).already := by intro n d x h; simp [St.init, aget] at h
+  cases fwd with
+  | true => exact key true 0 false r.vro r.name r.version none (St.init e) s' (fun _ h => h.elim) ha hown hres hpres h
+  | false => exact key false 0 false r.vro r.name none none (St.init e) s' (fun _ h => h.elim) ha hown hres hpres h
+
+/-- `EnvOK` = clauses (a), (b), (c) (+ the environment is one eups produced) -/
+structure EnvOK (cfg : Cfg) (e : Setup.Env) : Prop where
+  dir : DirOK cfg.db e
+  present : ContribsPresent cfg e
+  noResidue : NoResidue Empty e
+  wellOwned : WellOwned cfg e
+
+/-- clauses 1–3 of C01: a successful setup request preserves `EnvOK` — under `NameDag` -/
+theorem C01_envOK_preserved_partial (db : Db) (rank : Name → Nat) (hdag : NameDag db rank) (fuel : Nat) (r : Request)
+    (e : Setup.Env) (s' : St) (hok : EnvOK (r.cfg db) e) (h : runSetup db fuel r e = .ok s') :
+    EnvOK (r.cfg db) s'.env := by
+  obtain ⟨h1, h2⟩ := C01_no_residue_partial db rank hdag fuel r e s' hok.wellOwned hok.noResidue h
+  exact ⟨C01_dir_preserved db fuel true r e s' hok.dir h,
+         C01_contributions_present_partial db rank hdag fuel true r e s' hok.wellOwned hok.noResidue hok.present h, h1, h2⟩
+
+/-! ## clause 4: an explicitly named version is the one set up -/
+
+theorem C01_explicit_version_partial (db : Db) (rank : Name → Nat) (hdag : NameDag db rank) (fuel : Nat)
+    (r : Request) (v : VStr) (hv : r.version = some (.explicit v)) (e : Setup.Env) (s' : St)
+    (h : runSetup db fuel r e = .ok s') : ∃ k, s'.env.rec? r.name = some (v, k) := by
+  unfold runSetup at h
+  cases fuel with
+  | zero => simp [setup_zero] at h
+  | succ k =>
+    rw [setup_succ_true] at h
+    have ha0 : AlreadyOK (r.cfg db).db (St.init e).already := by intro n d x h; simp [St.init, aget] at h
+    cases hres : resolve (r.cfg db).db (r.cfg db).path (r.cfg db).keep (St.init e).already r.name r.version none 0 r.vro.length r.vro with
+    | none => rw [hres] at h; cases h
+    | error => rw [hres] at h; cases h
+    | found d reason =>
+      rw [hres] at h
+      obtain ⟨hc, hname⟩ := resolve_spec _ _ _ _ ha0 _ _ _ _ _ _ _ _ hres
+      simp only at h
+      have hpd : pickDecl (r.cfg db).db (St.init e).cache d = d := rfl
+      rw [hpd] at h
+      rw [hv] at hres
+      have hver := resolve_explicit _ _ _ _ _ _ _ _ _ _ _ hres
+      have := install_top_record (r.cfg db) rank hdag (setup (r.cfg db) k) (setup_recOK (r.cfg db) rank hdag k)
+        false r.vro d reason hc _ s' (register_already (r.cfg db) 0 d reason
+          ((St.init e).afterResolve (r.cfg db) 0 r.vro r.name r.version none) ha0 hc) h
+      refine ⟨d.ver.2, ?_⟩
+      rw [← hname, ← hver]; exact this
+
+/-! ## D17: the full statement is false when a product name is reachable from one of its own versions -/
+
+def nTop : Name := [116]
+def nA : Name := [97]
+def nB : Name := [98]
+def nC : Name := [99]
+def v1 : Ver := ([49], 0)
+def v2 : Ver := ([50], 0)
+def PATH : Str := [80]
+def ALATE : Str := [76]
+
+/-- `top → a` (current `a 1`) `→ b → a 2`: the product-version graph is a DAG, the name graph has a cycle.
+`a 1`: `envPrepend(PATH, $DIR/1); setupRequired(b); envPrepend(PATH, $DIR/2); envSet(L, $DIR)` -/
+def dbD17 : Db :=
+  { decls := [
+      ⟨nTop, v1, [1], [(.always, .dep nA false false none none [] false)]⟩,
+      ⟨nA, v1, [2], [(.always, .prepend PATH [.own [1]] false), (.always, .dep nB false false none none [] false),
+                     (.always, .prepend PATH [.own [2]] false), (.always, .set ALATE (.own []))]⟩,
+      ⟨nB, v1, [3], [(.always, .dep nA false false (some (.explicit v2.1)) none [] false)]⟩,
+      ⟨nA, v2, [4], [(.always, .prepend PATH [.own [1]] false)]⟩ ],
+    tags := [(tagCurrent, nTop, v1), (tagCurrent, nA, v1), (tagCurrent, nB, v1)] }
+
+def reqTop : Request := ⟨nTop, none, false, none, false, [], [0]⟩
+
+def envOf : Res → Option Setup.Env
+  | .ok s => some s.env
+  | _ => none
+
+/-- From the empty environment `setup top` succeeds and ends with `SETUP_A = a 2`, while `PATH` still holds
+`dir(a 1)/2`, `L = dir(a 1)`, and `b` — required by the set-up `a`… of version 1 — is not set up. -/
+theorem C01_nested_switch_witness :
+    envOf (runSetup dbD17 20 reqTop Setup.Env.empty) =
+      some ⟨[(nA, v2), (nTop, v1)], [(nA, .own (nA, v2) []), (nTop, .own (nTop, v1) [])],
+            [(PATH, [.own (nA, v1) [2], .own (nA, v2) [1]])], [(ALATE, .own (nA, v1) [])]⟩ := by
+  decide +kernel
+
+/-! ## D34: an environment produced under one setup type is not `WellOwned` for a request of the other type -/
+
+def AX : Str := [88]
+
+/-- `a 1`: `envPrepend(PATH, $DIR/1); if (type == exact) { envPrepend(PATH, $DIR/2); envSet(X, $DIR) } else { envPrepend(PATH, $DIR/3) }` -/
+def dbD34 : Db :=
+  { decls := [
+      ⟨nA, v1, [2], [(.always, .prepend PATH [.own [1]] false), (.exact, .prepend PATH [.own [2]] false),
+                     (.exact, .set AX (.own [])), (.inexact, .prepend PATH [.own [3]] false)]⟩,
+      ⟨nA, v2, [4], [(.always, .prepend PATH [.own [1]] false)]⟩ ],
+    tags := [(tagCurrent, nA, v1)] }
+
+/-- `setup a` (exact), then `setup --inexact a 2`: `a 1` is unwound under the inexact reading of its table; `dir(a 1)/2`
+and `X = dir(a 1)` stay behind although `SETUP_A = a 2`.  The theorems' hypothesis `WellOwned (r.cfg db) e` (the prior
+environment was produced under the request's setup type) is what excludes this history. -/
+theorem C01_mixed_type_witness :
+    ∃ e1, envOf (runSetup dbD34 10 ⟨nA, none, false, none, false, [], [0]⟩ Setup.Env.empty) = some e1 ∧
+      envOf (runSetup dbD34 10 ⟨nA, some (.explicit v2.1), false, none, true, [], [0]⟩ e1) =
+        some ⟨[(nA, v2)], [(nA, .own (nA, v2) [])], [(PATH, [.own (nA, v2) [1], .own (nA, v1) [2]])],
+              [(AX, .own (nA, v1) [])]⟩ := by
+  refine ⟨⟨[(nA, v1)], [(nA, .own (nA, v1) [])], [(PATH, [.own (nA, v1) [2], .own (nA, v1) [1]])],
+           [(AX, .own (nA, v1) [])]⟩, ?_, ?_⟩ <;> decide +kernel
+
+/-! ## D35: a replaced version unwinds a dependency the same request has just set up -/
+
+/-- `top 1`: `setupRequired(c 2); setupRequired(a 2)`; `a 1`: `setupRequired(c)`; `a 2`, `c 1`, `c 2`: empty tables -/
+def dbD35 : Db :=
+  { decls := [
+      ⟨nTop, v1, [1], [(.always, .dep nC false false (some (.explicit v2.1)) none [] false),
+                       (.always, .dep nA false false (some (.explicit v2.1)) none [] false)]⟩,
+      ⟨nA, v1, [2], [(.always, .dep nC false false none none [] false)]⟩,
+      ⟨nA, v2, [3], []⟩,
+      ⟨nC, v1, [4], []⟩,
+      ⟨nC, v2, [5], []⟩ ],
+    tags := [(tagCurrent, nTop, v1), (tagCurrent, nA, v1), (tagCurrent, nC, v1)] }
+
+/-- With `a 1` and `c 1` set up, `setup top` switches `c` to 2 (first line), then replaces `a 1` by `a 2` (second line):
+unwinding `a 1` unsets `c` — the `c 2` the first line has just set up — and the request succeeds without any `c`, although
+`top`'s table requires it.  `C01_required_closure_partial` excludes this by `OneVersion` (no name of the closure has two
+declared versions, so nothing is ever replaced). -/
+theorem C01_replaced_version_witness :
+    envOf (runSetup dbD35 20 reqTop
+        ⟨[(nA, v1), (nC, v1)], [(nA, .own (nA, v1) []), (nC, .own (nC, v1) [])], [], []⟩) =
+      some ⟨[(nA, v2), (nTop, v1)], [(nA, .own (nA, v2) []), (nTop, .own (nTop, v1) [])], [], []⟩ := by
+  decide +kernel
+
+/-! ## non-vacuity: a diamond that switches `c 1 → c 2` inside one request -/
+
+/-- `top → a → c 1`, `top → b → c 2` -/
+def dbDiamond : Db :=
+  { decls := [
+      ⟨nTop, v1, [1], [(.always, .dep nA false false none none [] false), (.always, .dep nB false false none none [] false)]⟩,
+      ⟨nA, v1, [2], [(.always, .prepend PATH [.own [1]] false), (.always, .dep nC false false (some (.explicit v1.1)) none [] false)]⟩,
+      ⟨nB, v1, [3], [(.always, .prepend PATH [.own [1]] false), (.always, .dep nC false false (some (.explicit v2.1)) none [] false)]⟩,
+      ⟨nC, v1, [4], [(.always, .prepend PATH [.own [1]] false)]⟩,
+      ⟨nC, v2, [5], [(.always, .prepend PATH [.own [1]] false)]⟩ ],
+    tags := [(tagCurrent, nTop, v1), (tagCurrent, nA, v1), (tagCurrent, nB, v1), (tagCurrent, nC, v1)] }
+
+/-- the request succeeds, `c` ends at version 2 and no element of `c 1` is left -/
+theorem C01_nonvacuous :
+    envOf (runSetup dbDiamond 20 reqTop Setup.Env.empty) =
+      some ⟨[(nC, v2), (nB, v1), (nA, v1), (nTop, v1)],
+            [(nC, .own (nC, v2) []), (nB, .own (nB, v1) []), (nA, .own (nA, v1) []), (nTop, .own (nTop, v1) [])],
+            [(PATH, [.own (nC, v2) [1], .own (nB, v1) [1], .own (nA, v1) [1]])], []⟩ := by
+  decide +kernel
+
+/-! ## clause 5 (closure): the two halves that are theorems
+
+The full clause (the set of products set up is *exactly* the dependency closure, each at its designated version, when no
+product is requested in two versions) is evaluated on the implementation by oracle (ii); what is proved: nothing outside
+the closure is set up, and the requested product is set up in the version resolution designates. -/
+
+/-- from an environment with nothing set up, every product set up after a successful request is reachable from the
+requested product through dependency lines — every database, every flag, every fuel -/
+theorem C01_closure_sound (db : Db) (fuel : Nat) (r : Request) (e : Setup.Env) (s' : St)
+    (hclean : ∀ n, e.rec? n = none) (h : runSetup db fuel r e = .ok s') :
+    ∀ m v, s'.env.rec? m = some v → ∃ k, Within db r.name k m := by
+  intro m v hm
+  apply Classical.byContradiction
+  intro hno
+  have hsame := setup_subjInv (r.cfg db) (fun _ n => ∃ k, Within db r.name k n) (SameFor m e)
+    (within_closedAt_unbounded (r.cfg db) r.name)
+    (sameFor_subjInv (r.cfg db) _ m (fun _ h => hno h) e) fuel true 0 false r.vro r.name r.version none (St.init e) s'
+    ⟨0, Within.root⟩ (by intro n d x h; simp [St.init, aget] at h) (SameFor.refl m e) h
+  rw [hsame.record, hclean m] at hm
+  cases hm
+
+/-- the requested product is set up in the version the resolution order designates for the request (resolution run on
+an empty `alreadySetupProducts`, as the top-level call does) — under `NameDag` -/
+theorem C01_requested_version_partial (db : Db) (rank : Name → Nat) (hdag : NameDag db rank) (fuel : Nat)
+    (r : Request) (e : Setup.Env) (s' : St) (h : runSetup db fuel r e = .ok s') :
+    ∃ d reason, resolve db r.path r.keep [] r.name r.version none 0 r.vro.length r.vro = .found d reason ∧
+      s'.env.rec? r.name = some d.ver := by
+  unfold runSetup at h
+  cases fuel with
+  | zero => simp [setup_zero] at h
+  | succ k =>
+    rw [setup_succ_true] at h
+    have ha0 : AlreadyOK (r.cfg db).db (St.init e).already := by intro n d x h; simp [St.init, aget] at h
+    cases hres : resolve (r.cfg db).db (r.cfg db).path (r.cfg db).keep (St.init e).already r.name r.version none 0 r.vro.length r.vro with
+    | none => rw [hres] at h; cases h
+    | error => rw [hres] at h; cases h
+    | found d reason =>
+      rw [hres] at h
+      obtain ⟨hc, hname⟩ := resolve_spec _ _ _ _ ha0 _ _ _ _ _ _ _ _ hres
+      simp only at h
+      have hpd : pickDecl (r.cfg db).db (St.init e).cache d = d := rfl
+      rw [hpd] at h
+      have := install_top_record (r.cfg db) rank hdag (setup (r.cfg db) k) (setup_recOK (r.cfg db) rank hdag k)
+        false r.vro d reason hc _ s' (register_already (r.cfg db) 0 d reason
+          ((St.init e).afterResolve (r.cfg db) 0 r.vro r.name r.version none) ha0 hc) h
+      exact ⟨d, reason, hres, by rw [← hname]; exact this⟩
+
+/-- the required half of the closure: when no dependency line of the closure carries `-j`, every name of the closure has
+one declared version (no version conflict is possible) and `max_depth` is not set, then after a successful request for a
+product that was not set up, every `setupRequired` line of the table of every set-up product of the closure has its target
+set up (from an environment where this held — e.g. one with nothing of the closure set up), and the requested product is
+set up.  Together with `C01_closure_sound`: the products set up lie between the required closure and the reach of the
+request; which *optional* dependencies are in is decided by whether they can be resolved (oracle (ii)). -/
+theorem C01_required_closure_partial (db : Db) (fuel : Nat) (r : Request) (e : Setup.Env) (s' : St)
+    (hmd : r.maxDepth = none) (hnj : NoJust db (fun n => ∃ k, Within db r.name k n))
+    (hone : OneVersion db (fun n => ∃ k, Within db r.name k n))
+    (hdecl : RecsDeclared db e) (hnot : setupProd db e r.name = none)
+    (hsat : ReqSat (r.cfg db) (fun n => ∃ k, Within db r.name k n) (fun _ => False) e)
+    (h : runSetup db fuel r e = .ok s') :
+    ReqSat (r.cfg db) (fun n => ∃ k, Within db r.name k n) (fun _ => False) s'.env ∧ ∃ w, s'.env.rec? r.name = some w := by
+  have hcl : Closed (r.cfg db).db (fun n => ∃ k, Within db r.name k n) :=
+    fun d hd ⟨k, hk⟩ g n o j v x t kl hg => ⟨k + 1, Within.step hk hd rfl hg⟩
+  obtain ⟨h1, _, _, h4⟩ := setup_req (r.cfg db) _ hmd hcl hnj hone fuel (fun _ => False) 0 r.vro r.name r.version none
+    (St.init e) s' ⟨0, Within.root⟩ (Or.inr hnot) (by intro n d x h; simp [St.init, aget] at h) hdecl hsat h
+  exact ⟨h1, h4⟩
+
+/-! ## the hypotheses are satisfiable: the diamond database is a `NameDag`, the empty environment is `EnvOK` -/
+
+def rankDiamond (n : Name) : Nat := if n = nTop then 3 else if n = nA ∨ n = nB then 2 else if n = nC then 1 else 0
+
+example : NameDag dbDiamond rankDiamond := nameDag_of_check _ _ (by decide +kernel)
+
+example (cfg : Cfg) : EnvOK cfg Setup.Env.empty :=
+  ⟨by intro n v h; simp [Setup.Env.empty, Setup.Env.rec?, aget] at h,
+   by intro n v _ h; simp [Setup.Env.empty, Setup.Env.rec?, aget] at h,
+   ⟨by intro v p r h; simp [Setup.Env.empty, Setup.Env.pathOf, aget] at h,
+    by intro v p r h; simp [Setup.Env.empty, aget] at h, by intro n p r h; simp [Setup.Env.empty, aget] at h⟩,
+   ⟨by intro v p r h; simp [Setup.Env.empty, Setup.Env.pathOf, aget] at h,
+    by intro v p r h; simp [Setup.Env.empty, aget] at h, by intro n p r h; simp [Setup.Env.empty, aget] at h⟩⟩
+
+end EupsModel.C01
